@@ -394,7 +394,16 @@ Definition step10 (b : bscen) (s : b10) (e : bev) : b10 :=
                 mkb10 (pz s) (upd (gcoll s) t (Some (c, m))) (calls10 s) (ok10 s && good)
             | _ => s
             end
-        | Some (AGuardDrop | AGuardUnlock | APanic | AGuardForget) => mkb10 (pz s) (upd (gcoll s) t None) (calls10 s) (ok10 s)
+        | Some APanic =>
+            (* a guard over a structure without any lock (an empty collection) is unwound without a release event: its
+               poisoning is dated at the return of the panic *)
+            let ps := match gcoll s t with
+                      | Some (c, m) => if is_nil (leaves (shape_of sc c)) then upd_all (pz s) (pids_of sc c) (pst_after_panic m)
+                                       else pz s
+                      | None => pz s
+                      end in
+            mkb10 ps (upd (gcoll s) t None) (calls10 s) (ok10 s)
+        | Some (AGuardDrop | AGuardUnlock | AGuardForget) => mkb10 (pz s) (upd (gcoll s) t None) (calls10 s) (ok10 s)
         | Some (AClearPoison c) =>
             match root_poison (shape_of sc c) with
             | Some p => mkb10 (upd (pz s) p PDontCare) (gcoll s) (calls10 s) (ok10 s)
